@@ -276,6 +276,9 @@ def cut(src, spec):
             raise ValueError(f"no later statement in the same block contains {spec['until']}")
         last = u.index + (1 if spec.get("until_inclusive") else 0)
     if first >= last:
+        if spec.get("allow_empty"):
+            ln = src.count("\n", 0, block[first].start if first < len(block) else block[-1].end) + 1
+            return "", (ln, ln)
         raise ValueError("empty segment")
     text = src[block[first].start : block[last - 1].end]
     for s in block[first:last]:
